@@ -80,8 +80,10 @@ def base_spec():
                                     "fixed": {"type": "string", "const": "cv"},
                                     "code": {"type": "string", "pattern": "^abc$"}}},
             "Kind": {"type": "string", "enum": ["one", "two"]},
+            # const variants whose texts are already identifier-shaped and share an affix (the variant names are trimmed)
+            "SortOrder": {"oneOf": [{"const": "SortAscending"}, {"const": "SortDescending"}]},
             "Pet": {"oneOf": [{"$ref": "#/components/schemas/Cat"}, {"$ref": "#/components/schemas/Dog"}],
-                    "discriminator": {"propertyName": "t", "mapping": {"cat": "#/components/schemas/Cat", "dog": "#/components/schemas/Dog"}}},
+                    "discriminator": {"propertyName": "t", "mapping": {"cat": "#/components/schemas/Cat", "dog": "#/components/schemas/Dog", "hound": "#/components/schemas/Dog"}}},
             "Cat": {"type": "object", "required": ["t"], "properties": {"t": {"type": "string"}, "m": {"type": "boolean"}}},
             "Dog": {"type": "object", "required": ["t"], "properties": {"t": {"type": "string"}, "b": {"type": "boolean"}}},
         }},
@@ -102,7 +104,15 @@ def P(path, kind="text", wrap=lambda t: t):
     return ("/".join(str(p) for p in path), setter, kind, cur)     # cur = the inert text at this position
 
 
+def _rename_mapping_key(spec, text):
+    m = spec["components"]["schemas"]["Pet"]["discriminator"]["mapping"]
+    m[text] = m.pop("hound")
+
+
 POSITIONS = [
+    # a discriminator tag (a KEY of the mapping) next to another tag of the same schema
+    ("components/schemas/Pet/discriminator/mapping#key", _rename_mapping_key, "text", "hound"),
+    P(["components", "schemas", "SortOrder", "oneOf", 0, "const"], kind="ident"),
     P(["info", "title"], kind="ident"), P(["info", "description"]),
     P(["paths", "/items/{id}", "get", "summary"]), P(["paths", "/items/{id}", "get", "description"]),
     P(["paths", "/items/{id}", "get", "parameters", 0, "description"]), P(["paths", "/items/{id}", "get", "parameters", 1, "description"]),
